@@ -17,7 +17,7 @@ package coresim
 //   c18_waitdead {timeout_ms}                  wait until the master has no non-terminal task
 //   c18_delfid                                 delete the stored framework id (fresh installation)
 //
-// Points: "ACCEPT" (an ACCEPT call launching at least one task), "MESSAGE:CONFIGURE",
+// Points: "RECONCILE", "ACCEPT" (an ACCEPT call launching at least one task), "MESSAGE:CONFIGURE",
 // "MESSAGE:START", ..., "KILL", "LAUNCH" (per task, before TASK_RUNNING is reported; a task that was
 // killed while held is never reported running).
 
@@ -141,6 +141,10 @@ func (s *c18State) install(r *Runner) {
 			s.mu.Lock()
 			s.reconciles++
 			s.mu.Unlock()
+			// held here, the master has not answered yet: a stream dropped now loses the whole answer
+			if s.arrive(r, "RECONCILE", false) == "drop" {
+				return http.StatusServiceUnavailable
+			}
 			return 0
 		}
 		p := c18Point(call)
